@@ -78,7 +78,7 @@ package ignore
 //@   assigns nothing
 //@   ensures result != nil && result.Initialized == (len(cfg.ExcludeChecks) > 0 || len(result.Markers) > 0) && isetInv(result)
 //@   ensures forall t string :: contains(result.moduleIgnores, t) <==> contains(cfg.ExcludeChecks, t)
-//@   at call IgnoreSet.Add#1 assert isIgnoreLine(comment.Text) && (forall x string :: contains(annotation.Codes, x) <==> listHas(ignCodesOf(comment.Text), true, x)) && scopeOK(pass, file, comment, annotation.StartPos, annotation.EndPos)
+//@   at call IgnoreSet.Add#1 assert !skipFile(cfg, pass, file) && contains(pass.Files, file) && isIgnoreLine(comment.Text) && (forall x string :: contains(annotation.Codes, x) <==> listHas(ignCodesOf(comment.Text), true, x)) && scopeOK(pass, file, comment, annotation.StartPos, annotation.EndPos)
 //@   loop 1 frame
 //@   loop 2 frame
 //@   loop 3 frame
